@@ -1,12 +1,11 @@
 #!/bin/sh
 # usage: tools/muttest.sh <ID> <file-rel-to-lena> <sed-expr> : apply a one-line mutation to a scratch copy and run the check
+# (evidence of the run goes to a scratch directory: the evidence of the unchanged tree is not touched)
 ID=$1; F=$2; EXPR=$3
 D=$(mktemp -d /tmp/lm.XXXXXX)
 cp -r /repo/lena $D/
 sed -i "$EXPR" $D/lena/$F
 if diff -q /repo/lena/$F $D/lena/$F >/dev/null; then echo "MUTATION DID NOT APPLY"; rm -rf $D; exit 3; fi
 cd /verif
-mkdir -p /tmp/ev_backup; cp evidence/$ID.json /tmp/ev_backup/ 2>/dev/null
-LENA_REPO=$D timeout 600 ./check $ID 2>&1 | grep -E "VIOLATION|key:|violations=|MACHINERY|KNOWN" | head -8
-cp /tmp/ev_backup/$ID.json evidence/ 2>/dev/null
+VERIF_EVIDENCE_DIR=$D/ev LENA_REPO=$D timeout 600 ./check $ID 2>&1 | grep -E "VIOLATION|key:|violations=|MACHINERY|KNOWN" | head -8
 rm -rf $D
